@@ -158,6 +158,27 @@ fn main() {
             let corpus0 = i == 0;
             let shared_root_pool = corpus0 || rng.chance(1, 12);
             let n_new = if corpus0 { 5 } else if shared_root_pool { n_new.max(5) } else { n_new };
+            // pool "fork below the domain": an omitted fork point P whose in-domain children
+            // each keep a DIFFERENT part of P's lines (and rewrite the rest); start = merge of
+            // the children restoring all of P's lines; domain = P..start or ~::P. P is reached
+            // through one missing edge per child, each handing down lines the others did not.
+            // Index 1 is the fixed corpus case of this shape (2 children, split {0,1} / {2,3}).
+            let corpus1 = i == 1;
+            let fork_pool = corpus1 || (!shared_root_pool && rng.chance(1, 7));
+            let fork_nch = if corpus1 || rng.chance(2, 3) { 2 } else { 3 };
+            let fork_len = if corpus1 { 4 } else { (fork_nch + 1 + rng.usize(4)).max(4) };
+            let fork_owner: Vec<usize> = if corpus1 {
+                vec![0, 0, 1, 1]
+            } else {
+                // every child owns at least one line; uneven splits
+                let mut v: Vec<usize> = (0..fork_len).map(|j| if j < fork_nch { j } else { rng.usize(fork_nch) }).collect();
+                rng.shuffle(&mut v);
+                v
+            };
+            let fork_overlap = !corpus1 && rng.chance(1, 3);
+            let fork_new_line: Option<usize> = if !corpus1 && rng.chance(1, 3) { Some(rng.usize(fork_len + 1)) } else { None };
+            let fork_start = 2 + fork_nch;
+            let n_new = if corpus1 { fork_start } else if fork_pool { n_new.max(fork_start) } else { n_new };
             const POOL_PARENTS: [&[usize]; 5] = [&[0], &[1], &[1], &[1, 2], &[4, 3]];
             let pool_len = if corpus0 { 4 } else { 4 + rng.usize(4) };
             let pool_lines: Vec<usize> = if corpus0 {
@@ -175,7 +196,16 @@ fn main() {
                 if shared_root_pool && k <= 5 {
                     ps = POOL_PARENTS[k - 1].to_vec();
                 }
-                while ps.len() < np && tries < 20 && !(shared_root_pool && k <= 5) {
+                if fork_pool && k <= fork_start {
+                    ps = if k == 1 {
+                        vec![0]
+                    } else if k < fork_start {
+                        vec![1]
+                    } else {
+                        (2..fork_start).collect()
+                    };
+                }
+                while ps.len() < np && tries < 20 && !(shared_root_pool && k <= 5) && !(fork_pool && k <= fork_start) {
                     tries += 1;
                     let p = if k == 1 {
                         0
@@ -192,7 +222,23 @@ fn main() {
                     merges += 1;
                 }
                 let base: Option<String> = texts[ps[0]].clone();
-                let text: Option<String> = if shared_root_pool && k <= 5 {
+                let text: Option<String> = if fork_pool && k <= fork_start {
+                    let mut lines: Vec<String> = (0..fork_len).map(|x| format!("l{x}")).collect();
+                    if k >= 2 && k < fork_start {
+                        let child = k - 2;
+                        for j in 0..fork_len {
+                            let keeps = fork_owner[j] == child || (fork_overlap && fork_owner[j] + 1 == child);
+                            if !keeps {
+                                lines[j] = format!("c{child}_{j}");
+                            }
+                        }
+                    } else if k == fork_start {
+                        if let Some(at) = fork_new_line {
+                            lines.insert(at, "new".to_string());
+                        }
+                    }
+                    Some(lines_to_string(&lines, true))
+                } else if shared_root_pool && k <= 5 {
                     // p has >= 4 distinct lines; q, c2, c1 each rewrite a different line
                     let base_lines: Vec<String> = (0..pool_len).map(|x| format!("l{x}")).collect();
                     let mut lines = base_lines.clone();
@@ -280,7 +326,10 @@ fn main() {
             let pos: HashMap<CommitId, usize> = ids.iter().enumerate().map(|(i, id)| (id.clone(), i)).collect();
             let text_of = |x: usize| -> Vec<u8> { texts[x].clone().unwrap_or_default().into_bytes() };
 
-            let start = if corpus0 || shared_root_pool && rng.chance(2, 3) {
+            let fork_case = corpus1 || fork_pool && rng.chance(4, 5);
+            let start = if fork_case {
+                fork_start
+            } else if corpus0 || shared_root_pool && rng.chance(2, 3) {
                 5
             } else if rng.chance(2, 3) {
                 n - 1 - rng.usize(n.min(3)).min(n - 2)
@@ -289,8 +338,15 @@ fn main() {
             };
             type R = ResolvedRevsetExpression;
             let commits_of = |xs: &[usize]| R::commits(xs.iter().map(|&x| ids[x].clone()).collect());
-            let (domain, dshape): (Arc<R>, &str) = match if corpus0 || shared_root_pool && rng.chance(2, 3) { 99 } else { rng.below(10) } {
+            let (domain, dshape): (Arc<R>, &str) = match if fork_case {
+                if corpus1 || rng.chance(1, 2) { 99 } else { 98 }
+            } else if corpus0 || shared_root_pool && rng.chance(2, 3) {
+                99
+            } else {
+                rng.below(10)
+            } {
                 99 => (commits_of(&[1]).range(&commits_of(&[start])), "range"),
+                98 => (commits_of(&[1]).ancestors().negated(), "range"),
                 0..=3 => (R::all(), "all"),
                 4 => (commits_of(&[start]).ancestors(), "ancestors"),
                 5..=6 => {
@@ -403,6 +459,18 @@ fn main() {
             );
             if shared_root_pool {
                 ctx.count("(cases from the shared-omitted-parent pool)");
+            }
+            if fork_pool {
+                ctx.count("(cases from the fork-below-the-domain pool)");
+                let from_p = origins.iter().filter(|o| !o.0 && o.1 == 1).map(|o| o.2).collect::<Vec<_>>();
+                let via: std::collections::HashSet<usize> = nodes
+                    .iter()
+                    .filter(|(_, es)| es.iter().any(|(t, k)| *t == 1 && *k == 2))
+                    .map(|(c, _)| *c)
+                    .collect();
+                if via.len() >= 2 && from_p.len() >= 2 {
+                    ctx.count("(fork pool: omitted parent reached by >= 2 missing edges, >= 2 lines left in it)");
+                }
             }
             if distinct_origins >= 3 {
                 ctx.count("(cases blaming >= 3 distinct commits)");
